@@ -301,7 +301,7 @@ def check_case(case):
             # minidom limitations of C04 (exact model); any other divergence means the walkers do not emit the same stream "for the
             # same document", whichever component is to blame
             modelled = obs.clarkify(obs.minidom_colon_model(we))
-            if modelled == obs.clarkify(wd) or _only_doctype_name_differs(obs.clarkify(we), obs.clarkify(wd)):
+            if modelled == obs.clarkify(wd) or _only_doctype_name_differs(obs.clarkify(we), obs.clarkify(wd)) or obs.minidom_evicts_encoding(we):
                 classes.append("trees-differ(C04 known finding)")
             else:
                 d = obs.first_diff(obs.clarkify(we), obs.clarkify(wd))
